@@ -37,6 +37,7 @@ Pool == <<
   D("XAB",   "pat", <<Lit(1), Lit(65)>>, ""),                                           \* /\x01A/
   D("SLS",   "pat", <<Lit(59), Set(<<LowR>>), Lit(59)>>, ""),                   \* /;[a-z];/   same text as the literal ";x;"
   D("SXS",   "inl", Lits(<<59, 120, 59>>), ""),                                 \* ";x;"
+  D("IFP",   "pat", <<Lit(105), Lit(102)>>, ""),                                  \* /if/   a pattern without any operator: a pattern all the same
   D("BSL2",  "str", Lits(<<92, 92>>), ""),                                     \* "\\\\"   two escaped backslashes in a row
   D("BSQ",   "inl", Lits(<<92, 34>>), ""),                                     \* "\\\""   an escaped backslash, then an escaped quote
   D("QAQ",   "str", Lits(<<34, 97, 34>>), ""),                                  \* "\"a\""   two escapes in one literal
@@ -59,7 +60,9 @@ Idx == 1..PoolSize
 RECURSIVE OfSize(_)
 OfSize(n) == IF n = 1 THEN { {i} : i \in Idx }
              ELSE { S \cup {i} : S \in OfSize(n - 1), i \in Idx } \ OfSize(n - 1)
-Subsets == UNION { { S \in OfSize(n) : Cardinality(S) = n } : n \in 1..MaxDefs }
+\* (a string and a pattern with the same TEXT cannot be declared together: "multiple definitions with the same value")
+SameText(i, j) == {Pool[i].name, Pool[j].name} = {"IF", "IFP"}
+Subsets == UNION { { S \in OfSize(n) : Cardinality(S) = n /\ \A i, j \in S : ~SameText(i, j) } : n \in 1..MaxDefs }
 CaseOf(S) == [defs |-> [k \in 1..Cardinality(S) |-> Pool[SetToSeq(S)[k]]]]
 
 ASSUME /\ PoolSize <= Len(Pool)
